@@ -6,7 +6,8 @@ ID = "C02"
 SHARDS = 64
 RULE = (
     "Hypothesis builds programs (50% boolean-shape programs: nested and/or/not/^/==/!=/if-else over 3..6 bool operands with shared "
-    "intermediates; 30% small-integer programs; 20% general programs) x optimizer {default, fast} x uncompute {on, off}; the compiled "
+    "intermediates; 30% small-integer programs; 20% general programs) x optimizer {default, fast} x uncompute {on, off} x {compiled once, QlassF.compile() called again with the same or the "
+    "other uncompute setting - the circuit left by the last compile() is judged}; the compiled "
     "circuit is simulated (bit-parallel reversible simulator) on ALL 2^n basis inputs and every return bit's qubit is compared with the "
     "library's own expression for that bit (own evaluator). Non-trivial = (>=1 gate with >=2 controls or >=8 gates) and the function is "
     "neither constant nor a projection of single input bits; distinct by canonical JSON of (program, optimizer, uncompute)"
